@@ -10,6 +10,7 @@ package index_test
 // stream of the run (vidx.CheckReader). See DESIGN.md §5 C07.
 
 import (
+	"context"
 	"fmt"
 	"io"
 	"log"
@@ -19,8 +20,10 @@ import (
 	"sort"
 	"strings"
 	"testing"
+	"time"
 
 	"github.com/spq/pkappa2/internal/index"
+	"github.com/spq/pkappa2/internal/query"
 	"github.com/spq/pkappa2/internal/verif/vidx"
 	"github.com/spq/pkappa2/internal/verif/vlib"
 	"pgregory.net/rapid"
@@ -32,12 +35,122 @@ const (
 	fC07Aliasing   = "F-C07-addindex-host-aliasing"
 )
 
-// c07ExtraOracle is the hook for the search part of the C07 oracle ("the result
-// of every search stays the same"): before/after are the stacks (oldest first)
-// around one merge step. It returns "" when nothing differs.
-// TODO(lead): compare generated limit-free searches over both stacks once the
-// query machinery (C02) exists.
+// c07ExtraOracle is the search part of the C07 oracle ("the result of every
+// search stays the same"): before/after are the stacks (oldest first) around
+// one merge step. Searches are limit-free and limited ones over every sort key
+// that has a per-file lookup section, plus time-window filters placed on and
+// next to the first/last packet times of the visible streams. Results are
+// compared as the sequence of (sort key value) and as id sets per key value,
+// so a different order among equal keys is not an alarm. Returns "" when nothing differs.
 func c07ExtraOracle(before, after []*index.Reader) string {
+	ctx := context.Background()
+	type res struct {
+		keys []string
+		more bool
+	}
+	run := func(readers []*index.Reader, text string, limit uint) (*res, error) {
+		q, err := query.Parse(text)
+		if err != nil {
+			return nil, fmt.Errorf("query %q: %v", text, err)
+		}
+		streams, more, _, err := index.SearchStreams(ctx, readers, nil, q.ReferenceTime, q.Conditions, nil, q.Sorting, limit, 0, nil, nil, false)
+		if err != nil {
+			return nil, fmt.Errorf("search %q: %v", text, err)
+		}
+		r := &res{more: more}
+		// group ids by (first, last) time so that ties may come in any order
+		var cur string
+		var ids []uint64
+		flush := func() {
+			if cur == "" {
+				return
+			}
+			sort.Slice(ids, func(i, j int) bool { return ids[i] < ids[j] })
+			if limit != 0 {
+				// under a limit any of the streams with equal keys may fill the page: compare keys and counts only
+				r.keys = append(r.keys, fmt.Sprintf("%s x%d", cur, len(ids)))
+			} else {
+				r.keys = append(r.keys, fmt.Sprintf("%s%v", cur, ids))
+			}
+			ids = nil
+		}
+		for _, s := range streams {
+			k := ""
+			switch {
+			case strings.Contains(text, "sort:ftime"), strings.Contains(text, "sort:-ftime"):
+				k = fmt.Sprint(s.FirstPacket().UnixNano())
+			case strings.Contains(text, "sort:ltime"), strings.Contains(text, "sort:-ltime"):
+				k = fmt.Sprint(s.LastPacket().UnixNano())
+			case strings.Contains(text, "sort:id"):
+				k = fmt.Sprint(s.ID())
+			default:
+				k = "set"
+			}
+			if k != cur {
+				flush()
+				cur = k
+			}
+			ids = append(ids, s.ID())
+		}
+		flush()
+		if cur == "set" || len(streams) == 0 {
+			// no order requested: compare as one set
+		}
+		return r, nil
+	}
+	// time constants from the visible streams of the stack before the merge
+	vis, err := vidx.ObserveStack(before, false)
+	if err != nil {
+		return ""
+	}
+	var times []int64
+	for _, o := range vis {
+		times = append(times, o.FirstUS, o.LastUS)
+	}
+	sort.Slice(times, func(i, j int) bool { return times[i] < times[j] })
+	queries := []struct {
+		text  string
+		limit uint
+	}{
+		{"sort:ftime", 0}, {"sort:-ftime", 0}, {"sort:ltime", 0}, {"sort:-ltime", 0}, {"sort:id", 0},
+		{"sort:ftime", 2}, {"sort:-ftime", 3}, {"sort:ltime", 1}, {"sort:-ltime", 2}, {"sort:-id", 2},
+	}
+	abs := func(us int64) string { return time.UnixMicro(us).In(time.Local).Format("2006-01-02 150405") }
+	if len(times) != 0 {
+		for _, t := range []int64{times[0], times[len(times)/2], times[len(times)-1]} {
+			queries = append(queries,
+				struct {
+					text  string
+					limit uint
+				}{fmt.Sprintf(`ftime:"%s:" sort:id`, abs(t)), 0},
+				struct {
+					text  string
+					limit uint
+				}{fmt.Sprintf(`ltime:":%s" sort:id`, abs(t)), 0},
+				struct {
+					text  string
+					limit uint
+				}{fmt.Sprintf(`time:"%s:%s" sort:id`, abs(t-1_000_000), abs(t+1_000_000)), 0},
+				struct {
+					text  string
+					limit uint
+				}{fmt.Sprintf(`ftime:"%s:" sort:ftime`, abs(t)), 2},
+			)
+		}
+	}
+	for _, q := range queries {
+		a, err := run(before, q.text, q.limit)
+		if err != nil {
+			return "before the merge: " + err.Error()
+		}
+		b, err := run(after, q.text, q.limit)
+		if err != nil {
+			return "after the merge: " + err.Error()
+		}
+		if fmt.Sprint(a.keys) != fmt.Sprint(b.keys) || a.more != b.more {
+			return fmt.Sprintf("search %q (limit %d) returned %v (more=%v) before the merge and %v (more=%v) after it", q.text, q.limit, a.keys, a.more, b.keys, b.more)
+		}
+	}
 	return ""
 }
 
